@@ -35,6 +35,7 @@ def parseApiOp (s : String) : Option ApiOp :=
   | ["i", i, t] => do pure (.inject (← i.toNat?) t)
   | ["ia", i, m, t] => do pure (.injectAtRaw (← i.toNat?) (← parseMode m) t)
   | ["ea", i] => do pure (.emptyAlt (← i.toNat?))
+  | ["cl", i, m] => do pure (.clear (← i.toNat?) (← parseMode m))
   | ["eba", i] => do pure (.emptyBlockAlt (← i.toNat?))
   | ["ff"] => some .finishFunc
   | _ => none
